@@ -33,6 +33,7 @@ FILES = {
                    "// cppcheck-suppress-end arrayIndexOutOfBounds\na[7]=0;}\n"},
     "SM": {"sm.c": "// cppcheck-suppress-macro zerodiv\n#define DIV(x) ((x)/0)\nint sm(int x){ return DIV(x); }\n"},
     "X": {"x.c": "void x(void){ char *p = \"a;b\tc#d//e\x01\"; p[0]='z'; }\n"},
+    "X2": {"x2.c": "void x2(void){ char *q = \"\xc3\xa4\x02;z\"; q[1]='y'; }\n"},
     "XN": {"sp #1.c": "void xn(void){int a[2];a[8]=0;}\n"},
     "Y": {"y.c": "void y(void){ if ( }\n"},
     "ST": {"st.c": "void st(int *p){ int x = 1; x = 2; (void)p; if (p) {} *p = x; }\n"},
